@@ -8,6 +8,7 @@ import (
 	"os"
 	"os/exec"
 	"path/filepath"
+	"strings"
 	"syscall"
 	"time"
 
@@ -18,6 +19,59 @@ import (
 func init() {
 	commands["loader-run"] = loaderRun
 	commands["loader-child"] = loaderChild
+	commands["loader-cli"] = loaderCLI
+}
+
+// (only the two locations the program's own messages and README name: ./commands.yml and ./assets/commands.yml)
+// loaderCLI: which database a search of the real binary ends up with when the configured path does not exist but one of
+// the documented fall-back locations (relative to the working directory) holds a good file; with and without a notebook
+func loaderCLI(args []string) int {
+	fs := flag.NewFlagSet("loader-cli", flag.ExitOnError)
+	out := fs.String("out", "", "trace")
+	fs.Parse(args)
+	w := newTraceWriter(*out)
+	defer os.RemoveAll(tmpDir())
+	tr := 1000000 // (trace ids of their own, apart from the loader scenarios)
+	for _, layout := range []string{"commands.yml", "assets/commands.yml"} {
+		for _, dbflag := range []string{"none", "missing"} {
+			for _, notebook := range []bool{false, true} {
+				tr++
+				home := filepath.Join(tmpDir(), fmt.Sprintf("clihome%d", tr))
+				cwd := filepath.Join(home, "work")
+				os.MkdirAll(filepath.Join(cwd, filepath.Dir(layout)), 0o755)
+				os.WriteFile(filepath.Join(cwd, layout), []byte("- command: \"zqmainmark --run\"\n  description: \"Marker of the main file\"\n  keywords: [\"zqmainmark\"]\n"+mainYAML), 0o644)
+				if notebook {
+					os.MkdirAll(filepath.Join(home, ".config", "cmd-finder"), 0o755)
+					os.WriteFile(filepath.Join(home, ".config", "cmd-finder", "personal.yml"),
+						[]byte("- command: \"zqpersmark --run\"\n  description: \"Marker of the notebook\"\n  keywords: [\"zqpersmark\"]\n"), 0o644)
+				}
+				run := func(marker string) bool {
+					argv := []string{"search", "--format", "json", "--limit", "5", "--all-platforms"}
+					if dbflag == "missing" {
+						argv = append(argv, "--database", filepath.Join(home, "no-such-dir", "commands.yml"))
+					}
+					argv = append(argv, "--", marker)
+					cmd := exec.Command(os.Getenv("VERIF_WTF"), argv...)
+					cmd.Dir = cwd
+					cmd.Env = []string{"HOME=" + home, "XDG_CONFIG_HOME=" + filepath.Join(home, ".config"), "PATH=/usr/bin:/bin", "NO_COLOR=1"}
+					b, _ := cmd.CombinedOutput()
+					items, _ := parseJSONBlock(string(b))
+					for _, it := range items {
+						if strings.HasPrefix(it.Command, marker) {
+							return true
+						}
+					}
+					return false
+				}
+				ev := map[string]interface{}{"op": "clipath", "tr": tr, "layout": layout, "dbflag": dbflag, "haspers": notebook,
+					"found": run("zqmainmark"), "foundpers": notebook && run("zqpersmark")}
+				w.emit(ev)
+			}
+		}
+	}
+	w.close()
+	fmt.Printf("{\"cli_runs\": %d}\n", tr-1000000)
+	return 0
 }
 
 type loaderCfg struct {
